@@ -69,6 +69,37 @@ DoAcc(r) ==
                            !.div = IF div # {} /\ Len(@) < 40 THEN Append(@, [run |-> r.run, i |-> r.i, actor |-> "lfu", site |-> "acc", next |-> "", fields |-> div]) ELSE @,
                            !.nverd = @ + Len(verdicts), !.verdicts = Merge(@, verdicts, r.run, r.i)]
 
+\* A BATCH of accesses in one call (what the consumer of the access buffers does): the result must be the one of its accesses
+\* applied one after the other, ageing included at exactly the configured count.  The first-access filter is a bloom filter:
+\* its answer for an element is the logged one (r.has[i], read before the call) as long as the batch has not aged the sketch and
+\* the hash has not occurred in the batch before; it is yes for a hash the batch itself added since the last ageing; otherwise
+\* (first occurrence after an ageing inside the batch) it is unknown and both answers are followed.
+RECURSIVE BatchStates(_, _, _, _, _)
+BatchStates(S, r, i, agedYet, added) ==     \* S: set of [st, cnt] after the first i-1 elements
+  IF i > Len(r.hs) THEN S
+  ELSE LET h == r.hs[i] pos == r.poss[i]
+           answers == IF h \in added THEN {TRUE} ELSE IF ~agedYet THEN {r.has[i]} ELSE {TRUE, FALSE}
+           nxt == UNION {{LET ages == Aged(x.st, h, pos, a)
+                              st2 == Access(x.st, h, pos, a)
+                              c2 == IF ages THEN [k \in {} |-> 0] ELSE [k \in DOMAIN x.cnt \cup {h} |-> IF k = h THEN GetC(x.cnt, h) + 1 ELSE x.cnt[k]]
+                          IN [st |-> st2, cnt |-> c2, aged |-> ages] : a \in answers} : x \in S}
+           \* (ageing depends on the running total only: all members agree on it)
+           agesNow == \E y \in nxt : y.aged
+       IN BatchStates({[st |-> y.st, cnt |-> y.cnt] : y \in nxt}, r, i + 1, agedYet \/ agesNow, IF agesNow THEN {} ELSE added \cup {h})
+
+DoBatch(r) ==
+  LET S == BatchStates({[st |-> L, cnt |-> cnt]}, r, 1, FALSE, {})
+      match == {x \in S : x.st.rows = r.rows /\ x.st.total = r.total}
+      verdicts == IF match = {} THEN <<SV("a batch of accesses was not applied as the sequence of its accesses (counters, window count or the ageing point differ)")>> ELSE <<>>
+      pick == IF match # {} THEN CHOOSE x \in match : TRUE ELSE [st |-> [L EXCEPT !.rows = r.rows, !.total = r.total, !.dk = {}], cnt |-> [k \in {} |-> 0]]
+      estBad == match # {} /\ \E j \in DOMAIN r.ests : r.ests[j][2] < Cap(GetC(pick.cnt, r.ests[j][1]))
+  IN /\ L' = pick.st
+     /\ cnt' = pick.cnt
+     /\ rep' = [rep EXCEPT !.steps = @ + 1, !.ndiv = @ + (IF match = {} THEN 1 ELSE 0),
+                           !.nverd = @ + Len(verdicts) + (IF estBad THEN 1 ELSE 0),
+                           !.verdicts = Merge(Merge(@, verdicts, r.run, r.i),
+                                              IF estBad THEN <<SV("after a batch the estimate of a key is below the number of its accesses recorded in this ageing window")>> ELSE <<>>, r.run, r.i)]
+
 Pure(r, verdicts) ==
   /\ UNCHANGED <<L, cnt>>
   /\ rep' = [rep EXCEPT !.steps = @ + 1, !.nverd = @ + Len(verdicts), !.verdicts = Merge(@, verdicts, 0, l)]
@@ -84,6 +115,7 @@ Next ==
                              /\ rep' = [rep EXCEPT !.runs = @ + 1,
                                                    !.verdicts = Merge(@, IF r.rowlen # RowLen(r.counters) THEN <<SV("row length does not give every position a byte")>> ELSE <<>>, r.run, 0)]
          [] r.t = "acc" -> DoAcc(r)
+         [] r.t = "batch" -> DoBatch(r)
          [] OTHER -> UNCHANGED <<L, cnt, rep>>
 
 Spec == Init /\ [][Next]_vars
